@@ -32,7 +32,7 @@ func TestC12(t *testing.T) {
 	}
 	clientIP := s.ip(10)
 
-	rcheck(t, "histories", V.N(250, 800), func(rt *rapid.T) {
+	rcheck(t, "histories", V.N(250, 2500), func(rt *rapid.T) {
 		entry := rapid.IntRange(0, 1).Draw(rt, "listen entry")
 		l := s.in.cfg.Listens[entry]
 		stamp := s.model.receivedSupport(entry)
